@@ -104,17 +104,17 @@ func decodeScope(c *Ctx) map[*Fn][]string {
 			roots = append(roots, f)
 		}
 	}
-	add(p.Func("entry", "", "FromMultihashWithIO"))
-	add(p.Func("entry", "Fetcher", "fetchEntry"))
+	add(p.FuncI("entry", "", "FromMultihashWithIO"))
+	add(p.FuncOpt("entry", "Fetcher", "fetchEntry")) // small wrapper: may have been inlined away
 	for _, t := range []struct{ pkg, recv string }{{"io/cbor", "IOCbor"}, {"io/pb", "pb"}} {
 		for _, m := range []string{"Read", "DecodeRawEntry", "DecodeRawJSONLog"} {
-			add(p.Func(t.pkg, t.recv, m))
+			add(p.FuncI(t.pkg, t.recv, m))
 		}
 	}
-	add(p.Func("io/cbor", "", "castBytesToCid"))
-	add(p.Func("io/cbor", "IOCbor", "DecryptLinks"))
+	add(p.FuncI("io/cbor", "", "castBytesToCid"))
+	add(p.FuncI("io/cbor", "IOCbor", "DecryptLinks"))
 	for _, m := range []string{"Open", "OpenWithNonce"} {
-		add(p.Func("enc", "boxed", m))
+		add(p.FuncI("enc", "boxed", m))
 	}
 	// jsonable ToPlain converters
 	for _, fn := range p.Fns {
@@ -219,7 +219,7 @@ func runC12(c *Ctx, r *Report) {
 	// R-C12.3
 	nAssert, nErr := 0, 0
 	workerScope := map[*Fn]bool{}
-	for _, w := range AllFnsUnder(p.Func("entry", "Fetcher", "processQueue")) {
+	for _, w := range AllFnsUnder(p.FuncI("entry", "Fetcher", "processQueue")) {
 		workerScope[w] = true // the fetch worker consumes the decoder's result: only its error discipline is examined
 	}
 	fns3 := append([]*Fn{}, fns...)
@@ -354,7 +354,7 @@ func runC12(c *Ctx, r *Report) {
 	}
 	r.Floor("R-C12.4", "entry ToPlain converters", nTP, 1)
 	// the reference entry's SetClock always leaves a non-nil clock (GetClock() then never wraps a nil pointer)
-	sc := p.Func("entry", "Entry", "SetClock")
+	sc := p.FuncI("entry", "Entry", "SetClock")
 	clockField := p.Field("entry", "Entry", "Clock")
 	scf := &Flow{P: p, Fn: sc, Entry: Facts{}}
 	scf.Node = func(n ast.Node, f Facts) {
